@@ -10,6 +10,10 @@ cp -n /repo/Cargo.lock bhost/Cargo.lock 2>/dev/null || true
 (cd bhost && cargo build --quiet) || echo "bhost build failed: C11 / C20 will report it"
 # second build of the host with the generator's dynamic_load + ssr arms (C17)
 (cd host && cargo build --quiet --features dynamic_load,ssr --target-dir "$PWD/target-dl") || echo "host (dynamic_load) build failed: C17 will report it"
+# the host once per file format (C10)
+F="interpolate_display,plurals,format_datetime,format_list,format_nums,format_currency,icu_compiled_data"
+(cd host && cargo build --quiet --no-default-features --features "yaml_files,$F" --target-dir "$PWD/target-yaml") || echo "host (yaml) build failed: C10 will report it"
+(cd host && cargo build --quiet --no-default-features --features "json5_files,$F" --target-dir "$PWD/target-json5") || echo "host (json5) build failed: C10 will report it"
 # warm the native replay crate (leptos + leptos_i18n build, ~40 s cold)
 /opt/veriftools/pyvenv/bin/python3 - <<'PY'
 import sys, os
